@@ -56,7 +56,7 @@ def C15(tier, seed):
 
 def C14(tier, seed):
     req = ["C14.make_outcome", "C14.wellformed", "C14.predicates", "C14.low_high", "C14.left_right", "C14.as_ref",
-           "C14.projection", "C14.tuple", "C14.optpair", "C14.roundtrip", "C14.width", "C14.eq", "C14.hash"]
+           "C14.projection", "C14.tuple", "C14.optpair", "C14.roundtrip", "C14.width", "C14.eq", "C14.hash", "C14.clone_from"]
     st = iv_chain(tier, req + ["C07.range_bounds", "C14.infinite_bounds"])
     st.adopt = {"C07.range_bounds", "C07.range_contains", "C07.range_contains_consistent"}     # Interval -> RangeBounds is a conversion too
     return {
@@ -499,7 +499,7 @@ def own_stage(want, trace, req):
 
 
 def C01(tier, seed):
-    st = mean_stage("c01", "C01", arith_req("C01") + ["C01.call_styles_agree", "C01.constant_sample", "C01.style.ci", "C01.style.extend",
+    st = mean_stage("c01", "C01", arith_req("C01") + ["C01.call_styles_agree", "C01.constant_sample", "C01.style.ci", "C01.style.ci_sparse", "C01.style.extend",
                                                     "C01.style.append", "C01.style.meanci", "C01.zero_observation", "C01.squares_overflow", "C01.count_beyond_32_bits"], 40 if tier == "quick" else 400)
     st.mc = list(TABLES_MC)
     own = own_stage("M", "Trace_Hook", ["C01.own_tests_kind", "C01.own_tests_bound"])
@@ -551,7 +551,7 @@ def C04(tier, seed):
     st = mean_stage("c04", "C04", ["C04.no_panic", "C04.different_sizes", "C04.shape", "C04.paired_bound", "C04.paired_is_arith_of_differences",
                                    "C04.unpaired_bound", "C04.unpaired_bound_evaluated", "C04.unpaired_integer_nu", "C04.unpaired_bracketed_nu",
                                    "C04.exchange_mirrors", "C04.call_styles_agree", "C04.unpaired_family_0", "C04.unpaired_family_1",
-                                   "C04.unpaired_family_2"], 30 if tier == "quick" else 300)
+                                   "C04.unpaired_family_2", "C04.paired.ci_sparse", "C04.unpaired.ci_sparse", "C04.unpaired.mut"], 30 if tier == "quick" else 300)
     st.mc = list(TABLES_MC)
     designed = mean_stage("designed", "C04", ["C04.designed_dof", "C04.real_dof_critical_value", "C04.exchange_mirrors"], 0, shards=1)
     designed.harness_env = {"HARNESS_THREADS": 1}      # consecutive calls on one thread, in generator order
